@@ -9,7 +9,7 @@ PROPERTY = "C02"
 RULE = (
     "all ordered pairs (S,T) of multisets of <= n lattice points {0<=b<=d<=G} (diagonal points, "
     "repeats, empty diagram included); per pair: 5 affine variants, all row permutations, "
-    "list/int/float containers, appended infinite-death points; medium diagrams of 5..14 (thorough ..30) points, all ordered pairs against an independently built assignment problem. state = one (S,T) pair; transition "
+    "list/int/float containers, appended infinite-death points; medium diagrams of 5..45 (thorough ..120) points, all ordered pairs against an independently built assignment problem. state = one (S,T) pair; transition "
     "= one execution of persim.wasserstein; non-trivial = an optimal matching mixes diagonal and "
     "cross pairings, or several optimal matchings exist."
 )
@@ -25,7 +25,7 @@ def bounds(tier):
     return {"spaces": BOUNDS[tier], "aff": AFF, "rtol": RTOL, "medium_family": MEDIUM[tier]}
 
 
-MEDIUM = {"quick": {"n": [5, 6, 8, 10, 14], "k": 2}, "thorough": {"n": [5, 6, 7, 8, 10, 14, 20, 30], "k": 4}}
+MEDIUM = {"quick": {"n": [5, 6, 8, 10, 14, 20, 30, 45], "k": 2}, "thorough": {"n": [5, 6, 7, 8, 10, 14, 20, 30, 45, 70, 120], "k": 4}}
 
 
 def medium_members(tier):
